@@ -47,7 +47,21 @@ def compile(r: str):
 
         transitions[state_number].sort()
 
+    # The error state is not always reachable (for example '.*'),
+    # add it in that case, so that scanners can refer to it:
+    null = expr.null
+    if null not in state_numbers:
+        state_numbers[null] = len(states)
+        states.append(null)
+        transitions.append(
+            sorted(
+                (first, last, state_numbers[null])
+                for derivative_class in null.derivative_classes()
+                for first, last in derivative_class.ranges
+            )
+        )
+
     accepts = [state.nullable() for state in states]
-    error = state_numbers[expr.null]
+    error = state_numbers[null]
 
     return transitions, accepts, error
